@@ -233,6 +233,23 @@ func init() {
 				}
 			}
 		}
+		// several rendered blocks pending at once (replays inside one enclosing block, block helpers in a
+		// loop): each keeps exactly what it rendered - escaped string data, trusted HTML verbatim
+		for _, p := range payloads {
+			esc := template.HTMLEscapeString(p)
+			for _, t := range [][2]string{
+				{`<% contentFor("cell") { %><td><%= v %></td><% } %>[[<%= if (true) { %><%= contentOf("cell", {v: p}) %><%= contentOf("cell", {v: "R&D"}) %><%= contentOf("cell", {v: hp}) %><% } %>]]`,
+					"<td>" + esc + "</td><td>R&amp;D</td><td>" + p + "</td>"},
+				{`[[<%= for (x) in [p, "<i>", hp] { %><%= blk() { %><%= x %><% } %><% } %>]]`, "[" + esc + "][&lt;i&gt;][" + p + "]"},
+				{`<% let a = blk() { %><%= p %><% } %><% let b = blk() { %>second & longer<% } %>[[<%= a %><%= b %><%= a %>]]`, "[" + esc + "][second & longer][" + esc + "]"},
+			} {
+				c := RCase{Tmpl: t[0], Binds: []Bind{{"p", vStr(p)}, {"hp", vHTML(p)}, {"blk", vGo(103)}}}
+				o := e.addRenderCase("pending-blocks", c)
+				if o.Class != "OK" || o.Out != "[["+t[1]+"]]" {
+					e.Violate("c01-escape", fmt.Sprintf("%s with payload %q rendered %q (%s %s), want %q", t[0], p, o.Out, o.Class, o.Msg, "[["+t[1]+"]]"), map[string]interface{}{"case": c, "payload": p, "observed": o})
+				}
+			}
+		}
 		// a block helper that returns a plain STRING made of an argument and of what its block rendered
 		// to: the string is data, all of it is escaped by the sink (Go-only helper)
 		for _, p := range payloads {
